@@ -2,6 +2,7 @@ package main
 
 import (
 	"go/token"
+	"strings"
 
 	"golang.org/x/tools/go/ssa"
 )
@@ -68,6 +69,8 @@ func checkC11(p *Prog, r *Report) {
 	r.Explanation = "(1) E5: in test.test every Cache.Store and every move of the results file into plz-out (the on-disk result cache) is guarded — inside its closure or at every call site of the closure — by a sufficient success test (AllSucceeded()==true, or Failures()==0 && Errors()==0) and by `len(state.TestArgs) == 0`; (2) the closure that returns cached results returns non-nil only on the AllSucceeded()==true edge with a nil parse error, and its result is used only under needToRun()==false; (3) the reuse decision returns false only on the verifyHash(results file, hash)==true edge or as the negation of retrieveFromCache(hash), and returns true when ForceRerun is set; (4) the hash used by verifyHash/retrieve/store/move derives from runtimeHash; build.RuntimeHash is RuleHash(runtime=true) for pre and post build, the config hash, and a hash.Hash fed with PathHasher.Hash (content mode) of every file from IterRuntimeFiles, and file hashes reach the result only through that hash.Hash (no order-insensitive folding); (5) E2 with the runtime table on ruleHash (adds data, test outputs, test sandbox, test command, args placeholder); (6) IterRuntimeFiles yields paths derived from Outputs(), runtime dependencies, AllData() and AllTestTools()."
 	r.NotCovered = []string{"outcome equality with a fresh run", "remote execution result reuse", "flaky-retry accounting (C26)"}
 	p.hardlinkMarkerRule(r, "fs/E9.hardlink-marker-protocol")
+	importRules(p, r, checkC09, "fs/", "E3.symlink-target")
+	p.entryPointCoversAllOutputs(r)
 	test := p.Fn("test", "test")
 	if test == nil {
 		r.unresolved("E5.store-under-success", "test.test")
@@ -574,5 +577,41 @@ func (p *Prog) runtimeFilesRule(r *Report) {
 			continue
 		}
 		r.check(got[n], rule, "runtime files include "+n, p.pos(it.Pos()), fnName(it), "a yielded path derives from "+fn.Name()+"()", "no path yielded by IterRuntimeFiles derives from "+fn.Name()+"(): changes to the test's "+n+" would not change the runtime hash, so a stale result is reused")
+	}
+}
+
+// entryPointCoversAllOutputs: a tool referenced as `//tools:checker|run` is the whole target: what is hashed for it (and
+// what is prepared for it) is every output of the target, not only the file the entry point names - the tool runs from
+// plz-out and finds its sibling files there whether or not they were hashed.
+func (p *Prog) entryPointCoversAllOutputs(r *Report) {
+	rule := "E2.runtime-files-cover"
+	n := 0
+	for _, m := range []string{"Paths", "FullPaths", "LocalPaths"} {
+		fn := p.Fn("core", "AnnotatedOutputLabel."+m)
+		if fn == nil {
+			continue
+		}
+		n++
+		okk := false
+		for _, rc := range returnCases(fn, 0) {
+			ep := false
+			for _, f := range rc.Facts {
+				if e, ok := f.V.(*ssa.Extract); ok && e.Index == 1 && f.Val {
+					if lk, ok := e.Tuple.(*ssa.Lookup); ok && fieldKeyOfLoad(lk.X) == "core.BuildTarget.EntryPoints" {
+						ep = true
+					}
+				}
+			}
+			if !ep {
+				continue
+			}
+			if c, ok := rc.Vals[0].(*ssa.Call); ok && strings.HasPrefix(calleeName(&c.Call), "(core.BuildLabel).") {
+				okk = true
+			}
+		}
+		r.check(okk, rule, "AnnotatedOutputLabel."+m+": an entry-point annotation stands for all outputs of the target", p.pos(fn.Pos()), fnName(fn), "under EntryPoints[annotation] the result is BuildLabel."+m+"(...)", "for a label annotated with an entry point, "+m+" no longer returns the target's full outputs (e.g. only the entry-point file): the runtime hash of a test covers one file of its tool, so rebuilding the tool with a change in another output leaves the cached test result in place")
+	}
+	if n == 0 {
+		r.unresolved(rule, "core.AnnotatedOutputLabel.Paths / FullPaths / LocalPaths")
 	}
 }
